@@ -254,4 +254,167 @@ theorem monoApplyAdj_natural (φ : K → K') (h0 : φ 0 = 0) (hadd : ∀ a b, φ
 
 end natural
 
+/-! ### the reduced exponent is the documented phase (integer powers of the unit `ω`) -/
+section zpow
+variable {K : Type} [CommRing K]
+
+/-- an `M`-th root of unity (`M > 0`) as a unit; its inverse is `ω^{M-1}` -/
+def rootUnit (w : K) (M : Nat) (hM : 0 < M) (hw : w ^ M = 1) : Kˣ :=
+  ⟨w, w ^ (M - 1), by rw [← pow_succ', Nat.sub_add_cancel hM, hw], by rw [← pow_succ, Nat.sub_add_cancel hM, hw]⟩
+
+@[simp] theorem rootUnit_val (w : K) (M : Nat) (hM : 0 < M) (hw : w ^ M = 1) : (rootUnit w M hM hw : K) = w := rfl
+
+theorem rootUnit_pow (w : K) (M : Nat) (hM : 0 < M) (hw : w ^ M = 1) : rootUnit w M hM hw ^ M = 1 := by
+  apply Units.ext; rw [Units.val_pow_eq_pow_val]; exact hw
+
+theorem zpow_emod_root {u : Kˣ} {M : Nat} (hM : 0 < M) (hu : u ^ M = 1) (m : Int) :
+    u ^ ((m % (M : Int)).toNat) = u ^ m := by
+  have h1 : (0 : Int) < M := by exact_mod_cast hM
+  have h2 : ((m % (M : Int)).toNat : Int) = m % (M : Int) := Int.toNat_of_nonneg (Int.emod_nonneg m (ne_of_gt h1))
+  conv => rhs; rw [← Int.mul_ediv_add_emod m M, zpow_add, zpow_mul, zpow_natCast, hu, one_zpow, one_mul, ← h2,
+    zpow_natCast]
+
+/-- **the reduced exponent is the integer phase**: `ω ^ ((m mod M).toNat) = ω ^ m` for every integer `m` -/
+theorem nft_exp_is_zpow {u : Kˣ} {M : Nat} (hM : 0 < M) (hu : u ^ M = 1) (m : Int) :
+    (u : K) ^ ((m % (M : Int)).toNat) = ((u ^ m : Kˣ) : K) := by
+  rw [← Units.val_pow_eq_pow_val, zpow_emod_root hM hu]
+
+/-- **entries as integer powers**: `E[r, j] = ω ^ (Σ_d (k_d − N_d/2) · a_{j,d})` -/
+theorem nft_entry_zpow {u : Kˣ} {M : Nat} (hM : 0 < M) (hu : u ^ M = 1) (shape : List Nat)
+    (a : List (List Int)) (r j : Nat) (hr : r < prodL shape) (hj : j < a.length) :
+    dense (nftCoo (u : K) M shape a) r j = ((u ^ phase shape (unravel shape r) (a.getD j []) : Kˣ) : K) := by
+  rw [nft_dense _ _ _ _ _ _ hr hj]
+  exact nft_exp_is_zpow hM hu _
+
+end zpow
+
+/-! ### positions on the FFT grid give the (shifted) DFT matrix -/
+section dft
+variable {K : Type} [CommRing K]
+
+theorem dftPos_getD (N j : Nat) (hj : j < N) : (dftPos N).getD j [] = [(j : Int)] := by
+  simp [dftPos, List.getD_eq_getElem?_getD, hj]
+
+/-- 1-D, all `N`: with `M = N` and `a_j = j` the exponent is `(k − N/2)·j mod N = (k + (N − N/2))·j mod N` -/
+theorem nftExpAt_dft (N k j : Nat) (hj : j < N) :
+    nftExpAt N [N] (dftPos N) k j = ((k + (N - N / 2)) * j) % N := by
+  unfold nftExpAt
+  rw [dftPos_getD N j hj]
+  simp only [unravel, prodL, phase, Nat.div_one, add_zero]
+  obtain ⟨p, hp⟩ : ∃ p, N = N / 2 + p := ⟨N - N / 2, by omega⟩
+  have hp' : N - N / 2 = p := by omega
+  rw [hp']
+  have h : ((k : Int) - ((N / 2 : Nat) : Int)) * (j : Int)
+      = (((k + p) * j : Nat) : Int) + (N : Int) * (-(j : Int)) := by
+    conv => rhs; rw [hp]
+    push_cast; ring
+  rw [h, Int.add_mul_emod_self_left, ← Int.natCast_mod, Int.toNat_natCast]
+
+/-- **on-grid positions give the shifted DFT matrix** (1-D, every `N > 0`, all `k, j < N`):
+    `E[k, j] = ω^{k·j} · ω^{(N − N/2)·j}` — the DFT matrix `ω^{kj}` with the centring shift `k ↦ k − N/2`.
+    (The D-dimensional product version is `nft_on_grid_is_dft_nd` below.) -/
+theorem nft_on_grid_is_dft {w : K} {N : Nat} (hw : w ^ N = 1) (k j : Nat) (hk : k < N) (hj : j < N) :
+    dense (nftCoo w N [N] (dftPos N)) k j = w ^ (k * j) * w ^ ((N - N / 2) * j) := by
+  have hk' : k < prodL [N] := by simpa [prodL] using hk
+  have hj' : j < (dftPos N).length := by simpa [dftPos] using hj
+  rw [nft_dense _ _ _ _ _ _ hk' hj', nftExpAt_dft N k j hj, pow_mod_root hw, ← pow_add, Nat.add_mul]
+
+/-- the shift factor is the conjugate of `ω^{(N/2)·j}`: `E[k, j] = ω^{k j} · conj(ω^{(N/2) j}) = "ω^{(k − N/2) j}"` -/
+theorem nft_on_grid_is_dft_cj {cj : K → K} (hc : IsConj cj) {w : K} {N : Nat} (hw : w ^ N = 1)
+    (hcw : cj w * w = 1) (k j : Nat) (hk : k < N) (hj : j < N) :
+    dense (nftCoo w N [N] (dftPos N)) k j = w ^ (k * j) * cj (w ^ (N / 2 * j)) := by
+  rw [nft_on_grid_is_dft hw k j hk hj]
+  congr 1
+  have h1 := cj_pow_mul hc hcw (N / 2 * j)
+  have h2 : w ^ ((N - N / 2) * j) * w ^ (N / 2 * j) = 1 := by
+    rw [← pow_add, ← Nat.add_mul, Nat.sub_add_cancel (Nat.div_le_self N 2), pow_mul, hw, one_pow]
+  calc w ^ ((N - N / 2) * j) = w ^ ((N - N / 2) * j) * (cj (w ^ (N / 2 * j)) * w ^ (N / 2 * j)) := by
+        rw [h1, mul_one]
+    _ = (w ^ ((N - N / 2) * j) * w ^ (N / 2 * j)) * cj (w ^ (N / 2 * j)) := by ring
+    _ = cj (w ^ (N / 2 * j)) := by rw [h2, one_mul]
+
+/-- D-dimensional DFT entry: `Π_d (ω^{M/N_d}) ^ ((k_d − N_d/2) · j_d)`; `ω^{M/N_d}` is an `N_d`-th root of unity
+    (`axis_root`), so every factor is the 1-D shifted DFT entry of axis `d` -/
+def dftProd (u : Kˣ) (M : Nat) : List Nat → List Nat → List Nat → Kˣ
+  | n :: sh, k :: ks, j :: js =>
+      (u ^ (M / n)) ^ (((k : Int) - ((n / 2 : Nat) : Int)) * (j : Int)) * dftProd u M sh ks js
+  | _, _, _ => 1
+
+theorem axis_root {u : Kˣ} {M : Nat} (hu : u ^ M = 1) {n : Nat} (hn : n ∣ M) : (u ^ (M / n)) ^ n = 1 := by
+  rw [← pow_mul, Nat.div_mul_cancel hn, hu]
+
+theorem phase_gridPos (u : Kˣ) (M : Nat) : ∀ (sh ks js : List Nat),
+    u ^ phase sh ks (List.zipWith (fun (n jd : Nat) => ((jd * (M / n) : Nat) : Int)) sh js) = dftProd u M sh ks js
+  | [], _, _ => by simp [phase, dftProd]
+  | _ :: _, [], _ => by simp [phase, dftProd]
+  | _ :: _, _ :: _, [] => by simp [phase, dftProd]
+  | n :: sh, k :: ks, j :: js => by
+    simp only [List.zipWith_cons_cons, phase, dftProd]
+    rw [zpow_add, phase_gridPos u M sh ks js]
+    congr 1
+    rw [← zpow_natCast u (M / n), ← zpow_mul]
+    congr 1
+    push_cast; ring
+
+theorem gridPos_getD (M : Nat) (shape : List Nat) (j : Nat) (hj : j < prodL shape) :
+    (gridPos M shape).getD j []
+      = List.zipWith (fun (n jd : Nat) => ((jd * (M / n) : Nat) : Int)) shape (unravel shape j) := by
+  simp [gridPos, List.getD_eq_getElem?_getD, hj]
+
+/-- **on-grid positions, D dimensions** (every shape, every `M > 0`; the positions are the FFT-grid positions
+    `pos_{j,d}·dst_d = j_d / N_d` when `N_d ∣ M`): the entry at pixel `k = unravel r`, point `j = unravel c` is the
+    product of the 1-D shifted DFT entries `(ω^{M/N_d}) ^ ((k_d − N_d/2)·j_d)`. -/
+theorem nft_on_grid_is_dft_nd {u : Kˣ} {M : Nat} (hM : 0 < M) (hu : u ^ M = 1) (shape : List Nat)
+    (r c : Nat) (hr : r < prodL shape) (hc : c < prodL shape) :
+    dense (nftCoo (u : K) M shape (gridPos M shape)) r c
+      = ((dftProd u M shape (unravel shape r) (unravel shape c) : Kˣ) : K) := by
+  have hc' : c < (gridPos M shape).length := by simpa [gridPos] using hc
+  rw [nft_entry_zpow hM hu _ _ _ _ hr hc', gridPos_getD M shape c hc, phase_gridPos]
+
+end dft
+
+/-! ### periodicity in the positions -/
+section shift
+variable {K : Type} [CommRing K]
+
+theorem phase_shift (M : Nat) : ∀ (sh ks : List Nat) (as : List Int) (z : Nat → Int),
+    ∃ q : Int, phase sh ks (as.mapIdx fun d v => v + (M : Int) * z d) = phase sh ks as + (M : Int) * q
+  | [], _, _, _ => ⟨0, by simp [phase]⟩
+  | _ :: _, [], _, _ => ⟨0, by simp [phase]⟩
+  | _ :: _, _ :: _, [], _ => ⟨0, by simp [phase]⟩
+  | n :: sh, k :: ks, a :: as, z => by
+    obtain ⟨q, hq⟩ := phase_shift M sh ks as (fun d => z (d + 1))
+    refine ⟨((k : Int) - ((n / 2 : Nat) : Int)) * z 0 + q, ?_⟩
+    simp only [List.mapIdx_cons, phase]
+    rw [hq]; ring
+
+theorem nftExpAt_shift (M : Nat) (z : Nat → Nat → Int) (shape : List Nat) (a : List (List Int)) (r j : Nat) :
+    nftExpAt M shape (shiftPos M z a) r j = nftExpAt M shape a r j := by
+  unfold nftExpAt shiftPos
+  rw [List.getD_eq_getElem?_getD, List.getD_eq_getElem?_getD, List.getElem?_mapIdx]
+  cases h : a[j]? with
+  | none => simp
+  | some aj =>
+    simp only [Option.map_some, Option.getD_some]
+    obtain ⟨q, hq⟩ := phase_shift M shape (unravel shape r) aj (z j)
+    rw [hq, Int.add_mul_emod_self_left]
+
+/-- **periodicity**: adding whole periods to any position coordinates (`a_{j,d} ↦ a_{j,d} + M·z_{j,d}`, i.e.
+    `pos_{j,d} ↦ pos_{j,d} + z_{j,d}/dst_d`) leaves the exponent table unchanged — all shapes, all dimensions -/
+theorem nft_shift_exp (M : Nat) (z : Nat → Nat → Int) (shape : List Nat) (a : List (List Int)) :
+    nftExp M shape (shiftPos M z a) = nftExp M shape a := by
+  unfold nftExp
+  have hl : (shiftPos M z a).length = a.length := by simp [shiftPos]
+  rw [hl]
+  simp only [nftExpAt_shift]
+
+/-- … and therefore the operator (and its adjoint) -/
+theorem nft_shift (w : K) (M : Nat) (z : Nat → Nat → Int) (shape : List Nat) (a : List (List Int)) :
+    nftCoo w M shape (shiftPos M z a) = nftCoo w M shape a := by
+  unfold nftCoo
+  rw [nft_shift_exp]
+  simp [shiftPos]
+
+end shift
+
 end NiftyVerif.Nft
